@@ -128,6 +128,12 @@ def p3_scopes():
     p.tag("ctl_dint", "INT", scope="Second_Prog", instance_id=1)  # same name as a controller tag, different type
     p.add(TagDef("Routine:Only", None, (), 2, scope="Second_Prog", kind="routine", symbol_type=0x106D))
     p.tag("p2_str", T["STRING"], scope="Second_Prog", instance_id=3)
+    # a program without any symbol (freshly created / spare): its symbol list is an empty, successful reply
+    p.add(TagDef("Program:Spare", None, (), next(ids), kind="program", symbol_type=0x1068))
+    p.programs["Spare"] = []
+    # program tags shadowing controller tags of the same name
+    p.tag("ctl_dint", "INT", scope="Second_Prog", instance_id=4)
+    p.tag("zz_last", "DINT", scope="MainProgram", instance_id=next(pid))
     return p
 
 
@@ -179,11 +185,14 @@ def p4_scale(n=260):
     return p
 
 
-def p5_ladder(sizes, elem="SINT", struct_size=None, name_len=3):
+def p5_ladder(sizes, elem="SINT", struct_size=None, name_len=3, string_cap=None):
     """One tag per byte size (C04): tag of `n` bytes for every n in sizes."""
     p = Project("P5")
     u = None
-    if struct_size:
+    if string_cap:
+        u = p.add_type(string_type("STRING" if string_cap == 82 else "STR%d" % string_cap, 0xFCE if string_cap == 82 else 0x2F0 + string_cap % 13, string_cap))
+        struct_size = u.size
+    elif struct_size:
         fields = [("m%d" % i, "DINT", 0) for i in range(struct_size // 4)]
         u = p.add_type(layout("Blk%d" % struct_size, 0x331, 0xE001, fields))
     esz = struct_size or {"SINT": 1, "INT": 2, "DINT": 4, "LINT": 8}[elem]
